@@ -96,7 +96,8 @@ Print Assumptions C01_bandwidth_configured_rate_bound.
 (* ---- the wrapper stacks mirror each other ---- *)
 
 (* reflective over today's GenStacks.v: for each of the three pairs of ends that carry TCP-class tunnels
-   (frps<->frpc work connection; stcp visitor<->frps; xtcp visitor<->owner frpc) and EVERY combination of
+   (frps<->frpc work connection; stcp visitor<->frps; xtcp visitor<->owner frpc), and for the four pairs formed by
+   the remaining sites of the table (http, udp, sudp proxy leg, sudp visitor leg), and EVERY combination of
    the flags (encryption, compression, limiter on either side) both stacks are built from recognised
    constructs only, agree modulo the limiter, use the pair's key class on both ends, and put the cipher
    next to the wire below the compressor when both are on *)
@@ -349,8 +350,8 @@ Example C01_example_bucket :
   reqs_ok 10 bk_init [(0, 10); (0, 10); (0, 10)].
 Proof. split; [vm_compute; reflexivity|]. unfold reqs_ok. cbn. repeat split; try (repeat constructor; cbn; lia); lia. Qed.
 
-Example C01_example_pairs : length (c01_pairs enc_key_args) = 3%nat /\
-  map (fun p => (sp_ka p, sp_kb p)) (c01_pairs enc_key_args) = [(None, Some KToken); (None, None); (None, Some KSecret)].
+Example C01_example_pairs : length (c01_pairs enc_key_args) = 7%nat /\
+  map (fun p => (sp_ka p, sp_kb p)) (firstn 3 (c01_pairs enc_key_args)) = [(None, Some KToken); (None, None); (None, Some KSecret)].
 Proof. vm_compute. split; reflexivity. Qed.
 
 Example C01_example_bridge :
